@@ -118,7 +118,7 @@ type outcome[T any] struct {
 	timeout  bool
 }
 
-func guarded[T any](f func() T) outcome[T] {
+func guardedFor[T any](d time.Duration, f func() T) outcome[T] {
 	ch := make(chan outcome[T], 1)
 	go func() {
 		defer func() {
@@ -131,9 +131,20 @@ func guarded[T any](f func() T) outcome[T] {
 	select {
 	case o := <-ch:
 		return o
-	case <-time.After(deadline):
+	case <-time.After(d):
 		return outcome[T]{timeout: true}
 	}
+}
+
+// guarded runs f with the 2 s deadline; a timeout is confirmed by a second run
+// with a 20 s deadline, so that a slow machine is not mistaken for a
+// non-terminating implementation (f must be repeatable).
+func guarded[T any](f func() T) outcome[T] {
+	o := guardedFor(deadline, f)
+	if o.timeout {
+		o = guardedFor(10*deadline, f)
+	}
+	return o
 }
 
 func copyNR(r *ctypes.NodeResource) *ctypes.NodeResource { return r.DeepCopy() }
@@ -806,7 +817,15 @@ func runDeploy(t *testing.T) {
 				c.count = 1 + g.intn(6)
 			}
 		}
+		attempt := 0
 		do := guarded(func() deployObs {
+			// every attempt works on its own copy of the node: the commit below is not repeatable
+			attempt++
+			name := fmt.Sprintf("%s.%d", name, attempt)
+			if _, err := pl.SetNodeResourceInfo(ctx, name, nrToRaw(c.info.Capacity), nrToRaw(c.info.Usage)); err != nil {
+				panic("harness: cannot store node copy: " + err.Error())
+			}
+			defer func() { _, _ = pl.RemoveNode(ctx, name) }()
 			resp, err := pl.CalculateDeploy(ctx, name, c.count, c.raw)
 			if err != nil {
 				return deployObs{err: err}
